@@ -28,7 +28,7 @@
 (* specification composes with the rounding relation to validate recorded  *)
 (* sessions of the real code; the actions below use them as is.            *)
 (***************************************************************************)
-EXTENDS Integers, Sequences
+EXTENDS Integers, Sequences, Outcomes
 
 CONSTANTS Zero, One, Add(_, _), Sub(_, _), Mul(_, _), Div(_, _), Neg(_), Abs(_), Leq(_, _), FromInt(_),
           MaxDeg          \* integration is offered up to this degree (7 in the library)
@@ -143,6 +143,9 @@ BatchFeed(x) ==
 BatchEnd ==
     /\ vprev > 0 /\ vprev' = 0 /\ vlast' = << >> /\ lastop' = [op |-> "vend"]
     /\ UNCHANGED << ends, pieces, handle, off, last, before >>
+
+-----------------------------------------------------------------------------
+\* Outcomes (C16): see Outcomes.tla (DocumentedReject, OutcomeOK), EXTENDed above.
 
 -----------------------------------------------------------------------------
 \* System-level invariants.
